@@ -83,7 +83,7 @@ class Model(object):
             evs.append(('GS',))
         if top == 'GS':
             evs.append(('ST',))
-        evs += [('X',), ('E',), ('LS',), ('LE',)]          # LS / LE (bounded loop markers) are ordinary body segments for the writer
+        evs += [('X',), ('E',), ('T',), ('LS',), ('LE',)]          # T: free text with a character that is a separator elsewhere; LS / LE (bounded loop markers) are ordinary body segments for the writer
         if top == 'ST':
             evs.append(('HL', 'root'))
             if self.hl_n:
@@ -134,6 +134,7 @@ class Model(object):
                 eles[10] = [rep]
             self.stack.append(('ISA', cid, len(self.out)))
             self.out.append(['ISA', eles])
+            self.cur_icvn = icvn
         elif k == 'GS':
             assert self.stack[-1][0] == 'ISA'
             n = sum(1 for s in self.out[self.stack[-1][2]:] if s[0] == 'GS') + 1
@@ -155,6 +156,13 @@ class Model(object):
             assert self.stack
             self.inputs.append(sele.join(['REF', 'N%d' % pos, 'B' + ssub + 'C']))
             self.out.append(['REF', [['N%d' % pos], ['B', 'C']]])
+        elif k == 'T':
+            # free text: in a 00401 interchange ^ is an ordinary character (there is no repetition separator), whatever the
+            # writer's repetition_term is; where ^ is one of the delimiters in play a harmless text is used instead
+            assert self.stack
+            txt = 'A^B ^' if (self.cur_icvn == '00401' and '^' not in (seg, ele, sub, sseg, sele, ssub)) else 'A.B .'
+            self.inputs.append(sele.join(['NTE', 'ADD', txt]))
+            self.out.append(['NTE', [['ADD'], [txt]]])
         elif k in ('LS', 'LE'):
             assert self.stack
             self.inputs.append(sele.join([k, '2120']))
